@@ -12,6 +12,9 @@ use std::{
 #[cfg(feature = "dot2")]
 mod graphviz;
 mod splitting;
+#[cfg(googlefonts_fontations_verif)]
+#[path = "graph/verif.rs"]
+pub mod verif;
 
 static OBJECT_COUNTER: AtomicU64 = AtomicU64::new(0);
 
@@ -69,6 +72,8 @@ impl Space {
 
 impl ObjectId {
     pub fn next() -> Self {
+        #[cfg(googlefonts_fontations_verif)]
+        verif::apply_next_id_gap();
         ObjectId(OBJECT_COUNTER.fetch_add(1, std::sync::atomic::Ordering::Relaxed))
     }
 }
